@@ -1,8 +1,20 @@
 """C11 check configuration."""
 
 PROP = {
-    "pkg": "internal/home",
-    "files": ["home/common_assembly_test.go", "home/c11_test.go", "home/c11_raw_test.go"],
+    "parts": [
+        {"name": "mux", "pkg": "internal/home",
+         "files": ["home/common_assembly_test.go", "home/c11_test.go", "home/c11_raw_test.go", "home/c11_shutdown_test.go"],
+         "tests": [
+             ("TestVFC11Unauthenticated", (6000, 30000)),
+             ("TestVFC11Authenticated", (1500, 6000)),
+             ("TestVFC11RawRequestLine", (1500, 8000)),
+         ],
+         "plain": ["TestVFC11PublicAndValid", "TestVFC11RouteCoverage"]},
+        # cleanup() tears the assembled globals down: a process of its own
+        {"name": "shutdown", "pkg": "internal/home",
+         "files": ["home/common_assembly_test.go", "home/c11_test.go", "home/c11_raw_test.go", "home/c11_shutdown_test.go"],
+         "plain": ["TestVFC11Shutdown"]},
+    ],
     "level": "exploration",
     "technique": "property-based testing (rapid) over (route x request shape x credential class x path spelling) against "
                  "the really assembled admin mux; routes enumerated dynamically from the mux; source scan as "
@@ -28,12 +40,6 @@ PROP = {
                   "the same handler and judges them the same way (net/http's own 400/505 pages count as refused). /control/version.json and the file server are registered without a "
                   "declared method by the code and are exempt from the 405/415 assertion (they still require "
                   "authentication). State-changing handlers are never executed with valid credentials.",
-    "tests": [
-        ("TestVFC11Unauthenticated", (6000, 30000)),
-        ("TestVFC11Authenticated", (1500, 6000)),
-        ("TestVFC11RawRequestLine", (1500, 8000)),
-    ],
-    "plain": ["TestVFC11PublicAndValid", "TestVFC11RouteCoverage"],
     "shards": (2, 16),
     "workers": (4, 16),
     "rule": "evaluations = requests judged (unauthenticated cases, authenticated guard probes, public/valid/install "
